@@ -210,9 +210,12 @@ def check(prop_id, tier, seed):
             log("CHECKER-ERROR runner task %s: %s" % (r["name"], r["error"]))
             return finish(prop_id, tier, seed, t_start, exit_code=3, error="runner task failed: " + r["name"])
 
+    import re as _re
+
     def known_match(key):
         for k in known:
-            if k.get("key") == key or (k.get("key_prefix") and key.startswith(k["key_prefix"])):
+            if k.get("key") == key or (k.get("key_prefix") and key.startswith(k["key_prefix"])) \
+                    or (k.get("key_regex") and _re.match(k["key_regex"], key or "")):
                 return k
         return None
 
@@ -220,8 +223,9 @@ def check(prop_id, tier, seed):
         for v in r.get("violations", []):
             k = known_match(v.get("key", ""))
             if k is not None:
-                if not any(x["key"] == k.get("key", k.get("key_prefix")) for x in known_seen):
-                    known_seen.append({"key": k.get("key", k.get("key_prefix")), "what": k.get("what", v.get("what"))})
+                kid = k.get("key") or k.get("key_prefix") or k.get("key_regex")
+                if not any(x["key"] == kid for x in known_seen):
+                    known_seen.append({"key": kid, "what": k.get("what", v.get("what")), "example": v.get("key")})
                 continue
             violations.append({"source": r["name"], "key": v.get("key"), "what": v.get("what"),
                                "input": v.get("input"), "observed": v.get("observed"),
